@@ -752,6 +752,10 @@ func run(c *lib.Ctx) {
 		}(b, sets[i:j])
 	}
 	wg.Wait()
+	concurrentBattery(c)
+	c.Floor("concurrent_wrong_password_refused", 1000)
+	c.Floor("concurrent_valid_logins_overlapping", 200)
+	c.Floor("concurrent_authenticated_protected_pages", 20)
 	// sanity half and floors: the run must not be vacuous
 	c.Floor("sanity_with_credentials_reached", c.Get("site_variants"))
 	c.Floor("sanity_public_reached", c.Get("site_variants")/2)
